@@ -388,16 +388,21 @@ type c20xLive struct {
 
 // c20xGraph is the graph.ChannelGraphSource behind the gossiper. The embedded
 // interface is nil: any method the unit is not expected to use panics.
+//
+// Parts of the pre-state that only matter once the gossiper asks for them are
+// drawn when it asks (lazily), so that the symbolic run does not split on them
+// for updates that are rejected earlier: the stored channel (GetChannelByID)
+// and the answers of MarkEdgeLive / UpdateEdge. The native replay draws the
+// same values in the same order.
 type c20xGraph struct {
 	graph.ChannelGraphSource
 
 	// pre-state
-	state    int
-	info     *models.ChannelEdgeInfo // known: full info; zombie: the two index keys only
-	e1, e2   *models.ChannelEdgePolicy
-	stale    bool
-	liveErr  error // what MarkEdgeLive answers
-	applyErr error // what UpdateEdge answers
+	state  int
+	stale  bool
+	known  func()                  // builds info, e1, e2 for a known channel
+	info   *models.ChannelEdgeInfo // known: full info; zombie: the two index keys only
+	e1, e2 *models.ChannelEdgePolicy
 
 	// recordings
 	staleAsked int
@@ -407,7 +412,9 @@ type c20xGraph struct {
 	getAsked   int
 	getScid    lnwire.ShortChannelID
 	live       []c20xLive
+	liveErr    error // what MarkEdgeLive answered
 	applied    []*models.ChannelEdgePolicy
+	applyErr   error // what UpdateEdge answered
 }
 
 func (g *c20xGraph) IsStaleEdgePolicy(chanID lnwire.ShortChannelID, ts time.Time,
@@ -425,6 +432,9 @@ func (g *c20xGraph) GetChannelByID(chanID lnwire.ShortChannelID) (*models.Channe
 	g.getScid = chanID
 	switch g.state {
 	case c20xKnown:
+		if g.info == nil {
+			g.known()
+		}
 		return g.info, g.e1, g.e2, nil
 	case c20xZombie:
 		// what KVStore/SQLStore.FetchChannelEdgesByID return for a zombie:
@@ -438,6 +448,12 @@ func (g *c20xGraph) GetChannelByID(chanID lnwire.ShortChannelID) (*models.Channe
 
 func (g *c20xGraph) MarkEdgeLive(v lnwire.GossipVersion, chanID lnwire.ShortChannelID) error {
 	g.live = append(g.live, c20xLive{v, chanID})
+	switch vU8("liveErr") % 3 {
+	case 1:
+		g.liveErr = graphdb.ErrZombieEdgeNotFound
+	case 2:
+		g.liveErr = c20xErrStore
+	}
 	return g.liveErr
 }
 
@@ -445,6 +461,12 @@ func (g *c20xGraph) UpdateEdge(_ context.Context, p *models.ChannelEdgePolicy,
 	_ ...batch.SchedulerOption) error {
 
 	g.applied = append(g.applied, p)
+	switch vU8("applyErr") % 3 {
+	case 1:
+		g.applyErr = graph.NewErrf(graph.ErrOutdated, "c20x: outdated")
+	case 2:
+		g.applyErr = c20xErrStore
+	}
 	return g.applyErr
 }
 
@@ -461,9 +483,9 @@ type c20xPeer struct {
 	disconnected int
 }
 
-func (p *c20xPeer) PubKey() [33]byte             { return c20xPubs[3] }
+func (p *c20xPeer) PubKey() [33]byte              { return c20xPubs[3] }
 func (p *c20xPeer) IdentityKey() *btcec.PublicKey { return p.id }
-func (p *c20xPeer) Disconnect(error)             { p.disconnected++ }
+func (p *c20xPeer) Disconnect(error)              { p.disconnected++ }
 
 // c20xPromise records how the gossiper resolved the message (this is what
 // ProcessRemoteAnnouncement's caller awaits).
@@ -517,23 +539,24 @@ func c20xBlankable(key [33]byte, blank bool) [33]byte {
 // byte corrupted or not; remote or local origin.
 //
 // Oracle:
-//   UpdateEdge called  => channel known AND signature authentic for exactly the
-//       key of the node that owns the claimed direction AND fields consistent
-//       AND the graph said "not stale" for (graph scid, timestamp, flags) of
-//       THIS update AND the policy handed over carries this update's fields;
-//   MarkEdgeLive called => channel is a zombie AND signature authentic for the
-//       node owning the claimed direction AND that node's key is present in
-//       the zombie index (it is one allowed to resurrect);
-//   relayed (returned for broadcast) => UpdateEdge was called and succeeded;
-//   stashed as premature => unknown channel, or zombie that was just
-//       legitimately resurrected;
-//   an update that is inauthentic / inconsistent / stale / for another chain /
-//       has timestamp 0 / is too far in the future causes no MarkEdgeLive, no
-//       UpdateEdge, no stash, no relay; and is answered with an error where
-//       the gossiper got as far as checking it.
-//   Conversely an authentic, consistent, fresh update of a known channel is
-//   applied (unless it is a remote update hitting the keep-alive / rate
-//   limit), and an authentic one from the allowed side resurrects the zombie.
+//
+//	UpdateEdge called  => channel known AND signature authentic for exactly the
+//	    key of the node that owns the claimed direction AND fields consistent
+//	    AND the graph said "not stale" for (graph scid, timestamp, flags) of
+//	    THIS update AND the policy handed over carries this update's fields;
+//	MarkEdgeLive called => channel is a zombie AND signature authentic for the
+//	    node owning the claimed direction AND that node's key is present in
+//	    the zombie index (it is one allowed to resurrect);
+//	relayed (returned for broadcast) => UpdateEdge was called and succeeded;
+//	stashed as premature => unknown channel, or zombie that was just
+//	    legitimately resurrected;
+//	an update that is inauthentic / inconsistent / stale / for another chain /
+//	    has timestamp 0 / is too far in the future causes no MarkEdgeLive, no
+//	    UpdateEdge, no stash, no relay; and is answered with an error where
+//	    the gossiper got as far as checking it.
+//	Conversely an authentic, consistent, fresh update of a known channel is
+//	applied (unless it is a remote update hitting the keep-alive / rate
+//	limit), and an authentic one from the allowed side resurrects the zombie.
 func VerifC20xChanUpdate() {
 	c20xIdeal()
 	// The replay clock is later than 2025-06-15; the symbolic clock is
@@ -587,43 +610,52 @@ func VerifC20xChanUpdate() {
 	capSat := vI64("capacity")
 	vAssume(capSat >= 0 && capSat <= c20xMaxSat)
 	chanID := vU64("stored.chanid")
-	hasProof := vBool("hasProof")
 	blank1, blank2 := vBool("zombie.blank1"), vBool("zombie.blank2")
-	var stored [2]*models.ChannelEdgePolicy
-	switch g.state {
-	case c20xKnown:
+	isRemote := vBool("isRemote")
+	hasProof := false
+	var d *AuthenticatedGossiper
+	g.known = func() {
 		g.info = &models.ChannelEdgeInfo{
 			Version: lnwire.GossipVersion1, ChannelID: chanID,
 			NodeKey1Bytes: n1, NodeKey2Bytes: n2, Capacity: btcutil.Amount(capSat),
 		}
+		hasProof = vBool("hasProof")
+		// A LOCAL update of an unannounced channel is additionally handed
+		// to the reliable sender (goroutines, message store): outside.
+		vAssume(isRemote || hasProof)
 		if hasProof {
 			g.info.AuthProof = &models.ChannelAuthProof{}
 		}
-		for k := 0; k < 2; k++ {
-			name := [2]string{"e1", "e2"}[k]
-			if !vBool(name + ".present") {
-				continue
+		// Stored policies: none, or both directions. Any last-update time;
+		// the other fields are the update's, except the base fee (xor any
+		// value) and the disabled bit (any), so that the update is or is
+		// not a keep-alive of the stored policy.
+		if vBool("stored.present") {
+			var st [2]*models.ChannelEdgePolicy
+			for k := 0; k < 2; k++ {
+				name := [2]string{"e1", "e2"}[k]
+				st[k] = &models.ChannelEdgePolicy{
+					Version: lnwire.GossipVersion1, ChannelID: chanID,
+					LastUpdate:                time.Unix(int64(vU32(name+".last")), 0),
+					MessageFlags:              lnwire.ChanUpdateMsgFlags(u.mflags),
+					ChannelFlags:              lnwire.ChanUpdateChanFlags(u.cflags&^3 | vU8(name+".disabled")&2 | uint8(k)),
+					TimeLockDelta:             u.tld,
+					MinHTLC:                   lnwire.MilliSatoshi(u.min),
+					MaxHTLC:                   lnwire.MilliSatoshi(u.max),
+					FeeBaseMSat:               lnwire.MilliSatoshi(u.base ^ vU32(name+".dbase")),
+					FeeProportionalMillionths: lnwire.MilliSatoshi(u.rate),
+					ExtraOpaqueData:           u.extra,
+				}
 			}
-			// The stored policy of a direction: any last-update time; the
-			// other fields are the update's, except the base fee (xor any
-			// value) and the disabled bit (any), so that the update is or
-			// is not a keep-alive of the stored policy.
-			last := vU32(name + ".last")
-			stored[k] = &models.ChannelEdgePolicy{
-				Version: lnwire.GossipVersion1, ChannelID: chanID,
-				LastUpdate:                time.Unix(int64(last), 0),
-				MessageFlags:              lnwire.ChanUpdateMsgFlags(u.mflags),
-				ChannelFlags:              lnwire.ChanUpdateChanFlags(u.cflags&^3 | vU8(name+".disabled")&2 | uint8(k)),
-				TimeLockDelta:             u.tld,
-				MinHTLC:                   lnwire.MilliSatoshi(u.min),
-				MaxHTLC:                   lnwire.MilliSatoshi(u.max),
-				FeeBaseMSat:               lnwire.MilliSatoshi(u.base ^ vU32(name+".dbase")),
-				FeeProportionalMillionths: lnwire.MilliSatoshi(u.rate),
-				ExtraOpaqueData:           u.extra,
+			g.e1, g.e2 = st[0], st[1]
+			// gossiper state: the rate limiters of this channel are
+			// exhausted (limit 0, burst 0), or do not exist yet
+			if vBool("ratelimit.exhausted") {
+				d.chanUpdateRateLimiter[chanID] = [2]*rate.Limiter{rate.NewLimiter(0, 0), rate.NewLimiter(0, 0)}
 			}
 		}
-		g.e1, g.e2 = stored[0], stored[1]
-	case c20xZombie:
+	}
+	if g.state == c20xZombie {
 		// The zombie index holds, per slot, the node's key or the blank
 		// key (graph/db makeZombiePubkeys: harness/C20 VerifC20ZombieKeys;
 		// Builder.MarkZombieEdge stores two blank keys).
@@ -632,25 +664,13 @@ func VerifC20xChanUpdate() {
 			NodeKey2Bytes: c20xBlankable(n2, blank2),
 		}
 	}
-	switch vU8("liveErr") % 3 {
-	case 1:
-		g.liveErr = graphdb.ErrZombieEdgeNotFound
-	case 2:
-		g.liveErr = c20xErrStore
-	}
-	switch vU8("applyErr") % 3 {
-	case 1:
-		g.applyErr = graph.NewErrf(graph.ErrOutdated, "c20x: outdated")
-	case 2:
-		g.applyErr = c20xErrStore
-	}
 
 	// --- the gossiper -----------------------------------------------
 	isAlias, hasBase := vBool("isAlias"), vBool("hasBase")
 	base := c20xSymScid("base")
 	genesis := c20xGenesisVal
 	closer := &c20xCloser{chanPeer: vBool("chanPeer")}
-	d := &AuthenticatedGossiper{
+	d = &AuthenticatedGossiper{
 		bestHeight: vU32("bestHeight"),
 		cfg: &Config{
 			ChainParams: &chaincfg.Params{GenesisHash: &genesis},
@@ -665,8 +685,8 @@ func VerifC20xChanUpdate() {
 			},
 			RebroadcastInterval: 24 * time.Hour,
 			// a non-positive interval = no rate limit for limiters the
-			// gossiper creates itself (rate.Inf); the denying limiter is
-			// pre-seeded below. Both avoid the float64 token arithmetic
+			// gossiper creates itself (rate.Inf); the denying limiters are
+			// seeded by g.known. Both avoid the float64 token arithmetic
 			// of x/time/rate on a symbolic clock.
 			ChannelUpdateInterval: 0,
 			MaxChannelUpdateBurst: 1,
@@ -678,10 +698,6 @@ func VerifC20xChanUpdate() {
 		chanUpdateRateLimiter:   make(map[uint64][2]*rate.Limiter),
 		banman:                  newBanman(DefaultBanThreshold),
 	}
-	rlDeny := vBool("ratelimit.exhausted")
-	if rlDeny && g.state == c20xKnown {
-		d.chanUpdateRateLimiter[chanID] = [2]*rate.Limiter{rate.NewLimiter(0, 0), rate.NewLimiter(0, 0)}
-	}
 
 	src, err := btcec.ParsePubKey(c20xPubs[3][:])
 	if err != nil {
@@ -689,10 +705,6 @@ func VerifC20xChanUpdate() {
 	}
 	peer := &c20xPeer{id: src}
 	prom := &c20xPromise{}
-	isRemote := vBool("isRemote")
-	// A LOCAL update of an unannounced channel is additionally handed to the
-	// reliable sender (goroutines, message store): outside.
-	vAssume(isRemote || hasProof || g.state != c20xKnown)
 	nMsg := &networkMsg{peer: peer, source: src, msg: w, isRemote: isRemote, errPromise: prom}
 
 	// ================= the real code =================
@@ -705,108 +717,92 @@ func VerifC20xChanUpdate() {
 	}
 
 	// --- what the property says ---------------------------------------
+	// (written without branches on symbolic values: !a || b for a => b)
 	dir := u.cflags & 1
-	owner := n1
-	ownerBlank := blank1
-	if dir == 1 {
-		owner, ownerBlank = n2, blank2
-	}
+	owner := c20xSel(n1, n2, dir)
+	ownerBlank := (dir == 0 && blank1) || (dir == 1 && blank2)
 	auth := slot.authentic(owner)
 	fieldsOK := u.mflags&1 != 0 && u.max != 0 && u.min <= u.max &&
 		(capSat == 0 || u.max <= uint64(capSat)*1000)
-	graphScid := u.scid
-	if hasBase {
-		graphScid = base
-	}
+	graphScid := c20xSelScid(u.scid, base, hasBase)
 	premature := isRemote && !isAlias && u.scid.BlockHeight > d.bestHeight
 	// the gossiper gets as far as looking at the channel:
 	looked := chainOK && !premature && u.ts != 0 && !g.stale && !far
+	askedRight := g.staleAsked == 1 && g.staleScid == graphScid && g.staleFlags == lnwire.ChanUpdateChanFlags(u.cflags) &&
+		g.staleTs.Unix() == int64(u.ts)
 
 	nApplied, nLive := len(g.applied), len(g.live)
 	_, stashErr := d.prematureChannelUpdates.Get(u.scid.ToUint64())
 	stashed := stashErr == nil
 	relayed := len(anns) > 0
+	parked := d.futureMsgs.Len() > 0
+	answered := prom.calls == 1
+	refused := prom.calls == 1 && prom.err != nil
 
-	vAssert(nApplied <= 1 && nLive <= 1 && len(anns) <= 1, "one update causes at most one graph operation and one relay")
-	vAssert(d.prematureChannelUpdates.Len() <= 1, "one update is stashed at most once")
+	vAssert(nApplied <= 1 && nLive <= 1 && len(anns) <= 1 && prom.calls <= 1 && d.prematureChannelUpdates.Len() <= 1,
+		"one update causes at most one graph operation, one stash, one relay and one answer")
 
 	// -- soundness -----------------------------------------------------
 	if nApplied == 1 {
 		p := g.applied[0]
 		vAssert(g.state == c20xKnown, "UpdateEdge for a channel that is not a known live edge")
 		vAssert(auth, "channel_update applied although its signature is not authentic for the node that owns the claimed direction")
-		vAssert(fieldsOK, "channel_update applied although its fields are inconsistent")
-		vAssert(looked, "channel_update applied although it is for another chain / premature / has timestamp 0 / is stale / is too far in the future")
-		vAssert(g.staleAsked == 1 && g.staleScid == graphScid && g.staleFlags == lnwire.ChanUpdateChanFlags(u.cflags) &&
-			g.staleTs.Unix() == int64(u.ts), "freshness was asked for another channel, direction or timestamp than the update's")
-		vAssert(g.getAsked == 1 && g.getScid == graphScid, "the channel looked up is not the one the update names")
-		vAssert(p.ChannelID == chanID && p.Version == lnwire.GossipVersion1, "policy applied to another channel id than the stored one")
-		vAssert(p.LastUpdate.Unix() == int64(u.ts) && uint8(p.ChannelFlags) == u.cflags && uint8(p.MessageFlags) == u.mflags &&
+		vAssert(fieldsOK && looked, "channel_update applied although its fields are inconsistent or it is for another chain / premature / has timestamp 0 / is stale / is too far in the future")
+		vAssert(askedRight && g.getAsked == 1 && g.getScid == graphScid, "freshness / the channel was looked up for another channel, direction or timestamp than the update's")
+		vAssert(p.ChannelID == chanID && p.Version == lnwire.GossipVersion1 &&
+			p.LastUpdate.Unix() == int64(u.ts) && uint8(p.ChannelFlags) == u.cflags && uint8(p.MessageFlags) == u.mflags &&
 			p.TimeLockDelta == u.tld && uint64(p.MinHTLC) == u.min && uint64(p.MaxHTLC) == u.max &&
 			uint64(p.FeeBaseMSat) == uint64(u.base) && uint64(p.FeeProportionalMillionths) == uint64(u.rate) &&
-			bytes.Equal(p.ExtraOpaqueData, u.extra), "the policy handed to the graph differs from the signed update")
+			bytes.Equal(p.ExtraOpaqueData, u.extra), "the policy handed to the graph differs from the signed update or names another channel id than the stored one")
 	}
 	if nLive == 1 {
 		vAssert(g.state == c20xZombie, "MarkEdgeLive for a channel that is not a zombie")
 		vAssert(auth, "zombie resurrected by an update whose signature is not authentic for the node that owns the claimed direction")
 		vAssert(!ownerBlank, "zombie resurrected by the side whose key is not in the zombie index")
-		vAssert(looked, "zombie resurrected by an update for another chain / premature / timestamp 0 / stale / too far in the future")
-		vAssert(g.live[0].v == lnwire.GossipVersion1 && g.live[0].scid == graphScid, "another channel than the update's was marked live")
-		vAssert(g.staleAsked == 1 && g.staleScid == graphScid && g.staleFlags == lnwire.ChanUpdateChanFlags(u.cflags) &&
-			g.staleTs.Unix() == int64(u.ts), "freshness was asked for another channel, direction or timestamp than the update's")
+		vAssert(looked && askedRight && g.live[0].v == lnwire.GossipVersion1 && g.live[0].scid == graphScid,
+			"zombie resurrected by an update for another chain / premature / timestamp 0 / stale / too far in the future, or another channel was marked live")
 	}
 	if relayed {
-		vAssert(nApplied == 1 && g.applyErr == nil, "channel_update relayed although it was not applied to the graph")
-		vAssert(hasProof && !isAlias, "channel_update of an unannounced channel / with an alias scid relayed")
-		vAssert(anns[0].msg == lnwire.Message(w) && anns[0].isRemote == isRemote, "something else than the update was relayed")
+		vAssert(nApplied == 1 && g.applyErr == nil && hasProof && !isAlias &&
+			anns[0].msg == lnwire.Message(w) && anns[0].isRemote == isRemote,
+			"channel_update relayed although it was not applied to the graph / the channel is unannounced / the scid is an alias, or something else was relayed")
 	}
 	if stashed {
-		vAssert(looked, "update stashed although it is for another chain / premature / timestamp 0 / stale / too far in the future")
-		vAssert(g.state == c20xUnknown || (g.state == c20xZombie && nLive == 1 && g.liveErr != c20xErrStore),
-			"update stashed for later although the channel is known, the store failed or the zombie was not resurrected")
+		vAssert(looked && (g.state == c20xUnknown || (g.state == c20xZombie && nLive == 1 && g.liveErr != c20xErrStore)),
+			"update stashed for later although it was rejected, the channel is known, the store failed or the zombie was not resurrected")
 	}
-	if d.futureMsgs.Len() > 0 {
-		vAssert(premature && chainOK, "update parked for a future height although it is not premature")
-		vAssert(nApplied == 0 && nLive == 0 && !relayed && !stashed, "premature update changed the graph")
+	if parked {
+		vAssert(premature && chainOK && nApplied == 0 && nLive == 0 && !relayed && !stashed,
+			"update parked for a future height although it is not premature, or a premature update changed the graph")
 	}
 
-	// -- rejected => answered with an error -----------------------------
-	if looked && (g.state == c20xKnown || g.state == c20xZombie) && !auth {
-		vAssert(prom.calls == 1 && prom.err != nil, "inauthentic update was not answered with an error")
-	}
-	if looked && g.state == c20xKnown && !fieldsOK {
-		vAssert(prom.calls == 1 && prom.err != nil, "inconsistent update was not answered with an error")
-	}
-	if looked && g.state == c20xZombie && ownerBlank {
-		vAssert(prom.calls == 1 && prom.err != nil, "update from the side that may not resurrect was not answered with an error")
-	}
-	if !chainOK || (far && !premature && u.ts != 0 && !g.stale && chainOK) {
-		vAssert(prom.calls == 1 && prom.err != nil, "update for another chain / too far in the future was not answered with an error")
-	}
-	vAssert(prom.calls <= 1, "the result promise was completed twice")
+	// -- rejected => answered with an error ------------------------------
+	touched := g.state == c20xKnown || g.state == c20xZombie
+	vAssert(!(looked && touched && !auth) || refused, "inauthentic update was not answered with an error")
+	vAssert(!(looked && g.state == c20xKnown && !fieldsOK) || refused, "inconsistent update was not answered with an error")
+	vAssert(!(looked && g.state == c20xZombie && ownerBlank) || refused, "update from the side that may not resurrect was not answered with an error")
+	vAssert(!(!chainOK || (far && !premature && u.ts != 0 && !g.stale)) || refused, "update for another chain / too far in the future was not answered with an error")
 
 	// -- completeness ---------------------------------------------------
-	switch {
-	case looked && g.state == c20xKnown && auth && fieldsOK:
-		throttled := isRemote && stored[dir] != nil // keep-alive / rate limit may drop it
-		if !throttled {
-			vAssert(nApplied == 1, "authentic, consistent, fresh update of a known channel was not applied")
-		}
-		if nApplied == 1 && g.applyErr == nil && hasProof && !isAlias {
-			vAssert(relayed, "applied update of an announced channel was not relayed")
-		}
-		if nApplied == 0 {
-			vAssert(prom.calls == 1 && prom.err == nil, "throttled update must be answered without error")
-		}
-	case looked && g.state == c20xZombie && auth && !ownerBlank:
-		vAssert(nLive == 1, "authentic update from the side allowed to resurrect did not resurrect the zombie")
+	good := looked && auth
+	if g.state == c20xKnown {
+		// a remote update of a direction that has a stored policy may be
+		// dropped by the keep-alive / rate limit
+		throttleable := isRemote && g.e1 != nil
+		vAssert(!(good && fieldsOK && !throttleable) || nApplied == 1, "authentic, consistent, fresh update of a known channel was not applied")
+		vAssert(!(good && fieldsOK && nApplied == 0) || (answered && !refused), "throttled update must be answered without error")
+		vAssert(!(nApplied == 1 && g.applyErr == nil && hasProof && !isAlias) || relayed, "applied update of an announced channel was not relayed")
+	}
+	if g.state == c20xZombie {
+		vAssert(!(good && !ownerBlank) || nLive == 1, "authentic update from the side allowed to resurrect did not resurrect the zombie")
 	}
 
-	// -- witnesses ----------------------------------------------------
+	// -- witnesses (branches on symbolic values only from here on) ---------
 	vObserve("applied", nApplied)
 	vObserve("live", nLive)
 	vObserve("relayed", relayed)
 	vObserve("stashed", stashed)
+	vObserve("parked", parked)
 	switch {
 	case nApplied == 1 && relayed:
 		vReach("applied-relayed")
@@ -814,29 +810,52 @@ func VerifC20xChanUpdate() {
 		vReach("applied-not-relayed")
 	case nLive == 1 && stashed:
 		vReach("zombie-resurrected")
+	case nLive == 1:
+		vReach("zombie-live-failed")
 	case stashed:
 		vReach("unknown-stashed")
-	case d.futureMsgs.Len() > 0:
+	case parked:
 		vReach("premature-parked")
 	case !chainOK:
 		vReach("reject-chain")
-	case far && looked == false && !g.stale && !premature && u.ts != 0:
-		vReach("reject-skew")
-	case !premature && u.ts == 0:
+	case u.ts == 0:
 		vReach("reject-zero-timestamp")
-	case !premature && g.stale:
+	case g.staleAsked == 1 && g.stale:
 		vReach("ignored-stale")
+	case far:
+		vReach("reject-skew")
 	case g.state == c20xDBErr:
 		vReach("reject-store-error")
 	case g.state == c20xZombie && ownerBlank:
 		vReach("zombie-reject-blank-key")
-	case g.state == c20xZombie && !auth:
+	case g.state == c20xZombie:
 		vReach("zombie-reject-signature")
 	case g.state == c20xKnown && !fieldsOK:
 		vReach("reject-fields")
 	case g.state == c20xKnown && !auth:
 		vReach("reject-signature")
-	case g.state == c20xKnown && nApplied == 0:
+	case g.state == c20xKnown:
 		vReach("throttled")
+	}
+}
+
+// c20xSel returns a for sel == 0 and b for sel == 1, without branching.
+func c20xSel(a, b [33]byte, sel uint8) [33]byte {
+	m := -(sel & 1)
+	for i := range a {
+		a[i] = a[i]&^m | b[i]&m
+	}
+	return a
+}
+
+func c20xSelScid(a, b lnwire.ShortChannelID, useB bool) lnwire.ShortChannelID {
+	m32, m16 := uint32(0), uint16(0)
+	if useB {
+		m32, m16 = ^uint32(0), ^uint16(0)
+	}
+	return lnwire.ShortChannelID{
+		BlockHeight: a.BlockHeight&^m32 | b.BlockHeight&m32,
+		TxIndex:     a.TxIndex&^m32 | b.TxIndex&m32,
+		TxPosition:  a.TxPosition&^m16 | b.TxPosition&m16,
 	}
 }
